@@ -20,7 +20,12 @@ RULE = (
     "(outside /repo and /verif, removed afterwards): the encoded content is put on disk; File.read(path) is "
     "compared with File.read(content) (elements and ==); the file read is written to a path (fresh, or already holding a longer earlier output), to a caller-owned "
     "buffer and the bytes on disk, decoded with the class's declared encoding, must be exactly the in-memory output "
-    "(binary storage: identical bytes); the disk round trip must equal the memory round trip. The named Boolean "
+    "(binary storage: identical bytes); the disk round trip must equal the memory round trip. What the destination "
+    "path holds BEFORE the write is varied over the cases (dst_prior: nothing, or an earlier save of the same deck "
+    "- as a second object of the class writes it - left there identical, with CRLF / CR / mixed line ends, with a "
+    "stale tail, cut short, empty, in another encoding, behind a BOM, with blanks before the line ends, without its "
+    "last line end, with the letter case swapped, binary: one byte changed): the bytes on disk after write(path) "
+    "never depend on it. The named Boolean "
     "checks are evaluated by the driver. non-trivial = the content has a non-ASCII character or binary storage; "
     "distinct by full case."
 )
@@ -64,6 +69,51 @@ def elems_of(case, f, classes):
     return [fsup.enc_selem(e, classes) for e in fsup.capped(f.data, cap)]
 
 
+# what the destination path may hold before write(path): derived from an earlier save `out` of the same deck
+PRIORS_TEXT = ["same", "crlf", "cr", "mixed_eol", "longer", "prefix", "empty", "other_encoding", "bom", "blank_before_eol", "no_final_eol", "swapcase"]
+PRIORS_BIN = ["same", "longer", "prefix", "empty", "byte_changed"]
+
+
+def prior_bytes(kind, out, enc, binary):
+    if binary:
+        if kind == "longer":
+            return out + b"\x00stale tail of an earlier, longer save" * 3
+        if kind == "prefix":
+            return out[: len(out) // 2]
+        if kind == "empty":
+            return b""
+        if kind == "byte_changed" and out:
+            k = len(out) // 2
+            return out[:k] + bytes([out[k] ^ 0x20]) + out[k + 1 :]
+        return out
+    t = out
+    if kind == "crlf":
+        t = out.replace("\n", "\r\n")
+    elif kind == "cr":
+        t = out.replace("\n", "\r")
+    elif kind == "mixed_eol":
+        parts = out.split("\n")
+        t = "".join(p + ("" if i == len(parts) - 1 else ("\r\n", "\n", "\r")[i % 3]) for i, p in enumerate(parts))
+    elif kind == "longer":
+        t = out + "\n# stale tail of an earlier, longer save\n" * 3
+    elif kind == "prefix":
+        t = out[: len(out) // 2]
+    elif kind == "empty":
+        t = ""
+    elif kind == "blank_before_eol":
+        t = out.replace("\n", "  \n")
+    elif kind == "no_final_eol":
+        t = out[:-1] if out.endswith("\n") else out + "\n"
+    elif kind == "swapcase":
+        t = out.swapcase()
+    elif kind == "other_encoding":
+        return out.encode("utf-16" if enc != "utf-16" else "utf-8", errors="replace")
+    b = t.encode(enc, errors="replace")
+    if kind == "bom":
+        b = {"utf-8": b"\xef\xbb\xbf", "utf-16": b"\xff\xfe"}.get(enc, b"\xef\xbb\xbf") + b
+    return b
+
+
 def run_impl(case):
     d0 = d = tempfile.mkdtemp(prefix="cfi-c16-")
     try:
@@ -99,7 +149,15 @@ def run_impl(case):
         checks["read_path_same_elements"] = e_path == e_mem
         # writing: path vs caller buffer
         dst = os.path.join(d, "out.dat")
-        if case.get("dst_exists"):
+        prior = case.get("dst_prior")
+        if prior:
+            # read - edit - save again: the destination already holds an earlier save of the same deck, as
+            # this or another tool / platform left it (the earlier save comes from a second object)
+            pbuf = BytesIO() if binary else StringIO()
+            F.read(content, *extra, **kw).write(pbuf)
+            with open(dst, "wb") as fh:
+                fh.write(prior_bytes(prior, pbuf.getvalue(), enc, binary))
+        elif case.get("dst_exists"):
             # read - edit - save again: the destination already holds a longer earlier output
             with open(dst, "wb") as fh:
                 fh.write(raw + b"\n# stale tail of an earlier, longer save\n" * 3)
@@ -152,7 +210,9 @@ def judge(case, obs, resp):
     if "exc" in obs:
         return {"status": "oracle", "why": f"path/in-memory I/O raised {obs['exc']}: {obs.get('msg')}"}
     if not resp["holds"]:
-        return {"status": "oracle", "why": f"{case['family']} {'binary' if case['binary'] else 'text'} {case['encoding']}: {resp.get('failed')} false"}
+        prior = case.get("dst_prior") or ("longer" if case.get("dst_exists") else None)
+        held = f", destination path held before the write: {prior}" if prior else ""
+        return {"status": "oracle", "why": f"{case['family']} {'binary' if case['binary'] else 'text'} {case['encoding']}{held}: {resp.get('failed')} false"}
     return {"status": "ok", "why": ""}
 
 
@@ -161,7 +221,7 @@ def nontrivial(case):
 
 
 def features(case, obs):
-    return [f"family={case['family']}", "binary" if case["binary"] else "text", f"encoding={case['encoding']}", "non_ascii" if any(c > 127 for c in case["x"]) else "ascii"]
+    return [f"family={case['family']}", "binary" if case["binary"] else "text", f"encoding={case['encoding']}", "non_ascii" if any(c > 127 for c in case["x"]) else "ascii", f"dst_prior={case.get('dst_prior') or ('longer' if case.get('dst_exists') else 'none')}"]
 
 
 def signature(rec):
@@ -190,8 +250,10 @@ def random_case(rng):
     fam = rng.choice(["register", "block", "section"])
     binary = fam != "section" and rng.random() < 0.3
     enc = rng.choice(ENCODINGS)
-    # half of the writes go to a path that already holds a longer, earlier output
-    case = {"family": fam, "binary": binary, "encoding": enc, "dst_exists": rng.random() < 0.5, "long_path": rng.random() < 0.2}
+    # three writes in four go to a path that already holds something: an earlier save of the same deck in one of
+    # the states of PRIORS_TEXT / PRIORS_BIN
+    prior = rng.choice(PRIORS_BIN if binary else PRIORS_TEXT) if rng.random() < 0.75 else None
+    case = {"family": fam, "binary": binary, "encoding": enc, "dst_prior": prior, "long_path": rng.random() < 0.2}
     if binary:
         if fam == "register":
             from props import c18
